@@ -55,6 +55,13 @@ theorem inst_ranges : Propka.Gen.Cfg.f_desolv_cutoff = 20000000 ∧ Propka.Gen.C
     Propka.Gen.Cfg.f_coulomb_cutoff2 ≤ 20000000 ∧ Propka.Gen.Consts.energy_UNK_BACKBONE_DISTANCE1 ≤ 20000000 ∧
     (∀ e ∈ Propka.Gen.Cfg.scPairs, e.2.2.2 ≤ 20000000) ∧ Propka.Gen.Cfg.scDefault.2 ≤ 20000000 := by decide +kernel
 
+/-- the backbone hydrogen-bond tables `[dpKa_max, inner, outer]` (the pair loop of `set_backbone_determinants` has no distance
+    pre-filter of its own: the outer cut-off of the table is the range of the interaction): outer cut-offs at most 20 A, inner
+    below outer -/
+theorem inst_backbone_ranges :
+    (∀ e ∈ Propka.Gen.Cfg.f_backbone_NH_hydrogen_bond, e.2.getD 2 0 ≤ 20000000 ∧ e.2.getD 1 0 < e.2.getD 2 0 ∧ e.2.length = 3) ∧
+    (∀ e ∈ Propka.Gen.Cfg.f_backbone_CO_hydrogen_bond, e.2.getD 2 0 ≤ 20000000 ∧ e.2.getD 1 0 < e.2.getD 2 0 ∧ e.2.length = 3) := by decide +kernel
+
 end Propka.Energy
 
 namespace Propka.Iter
